@@ -220,6 +220,10 @@ def ltPoint (r : Region) (c q : Nat) : Except Err (Option Bool) :=
     | some a => .ok (some (c < a.lo))
     | none => .ok none
 
+/-- the `strict` test of `Circuit.check_region`: every two intervals of the region overlap
+    (otherwise `ValueError('Disconnect detected in region.')`) -/
+def strictOk (r : Region) : Bool := r.all (fun p => r.all (fun p' => p.2.overlaps p'.2))
+
 end Region
 
 /-! ### `GreedyPartitioner.topo_sort` (bqskit/passes/partitioning/greedy.py)
